@@ -152,7 +152,25 @@ def check_getitem(run, f):
         elif not_slice or not is_slice:
             n_int += 1
             if arg is not None and matches('%s.data[%s]' % (s, i), arg) is not None:
-                run.holds(RULE, f.key, 'integer index', 'delegated to list indexing (IndexError exactly when a list raises)', f=f, node=r)
+                # the index handed to the list is the caller's index: if it is rebound first (hand normalisation of negative
+                # values), BOTH range tests must hold at the delegation, otherwise the list wraps an out-of-range index again
+                from ..cfg import reaching_defs
+                IN, OUT = reaching_defs(cfg, f.allparams)
+                redefs = [cfg.nodes[d].ast for (nm, d) in IN.get(node.id, ()) if nm == i and d != cfg.entry.id] if node else []
+                if not redefs:
+                    run.holds(RULE, f.key, 'integer index', 'delegated to list indexing (IndexError exactly when a list raises)', f=f, node=r)
+                else:
+                    def has(pred):
+                        return any(pred(fc) for fc in fs)
+                    low = has(lambda fc: (fc[1] and matches('%s >= 0' % i, fc[2].ast) is not None) or ((not fc[1]) and matches('%s < 0' % i, fc[2].ast) is not None))
+                    txts = [(fc[1], ast.unparse(fc[2].ast)) for fc in fs]
+                    high = any((pol and t.startswith('%s < ' % i)) or ((not pol) and t.startswith('%s >= ' % i)) for pol, t in txts)
+                    if low and high:
+                        run.holds(RULE, f.key, 'integer index', 'index normalised by hand; both range tests hold at the delegation', f=f, node=r)
+                    else:
+                        run.violation(RULE, f.key, 'integer index rewritten: ' + src(redefs[0], 40), 'the index is rewritten (%s) before it is handed to the '
+                                      'list and %s is not re-tested afterwards: an index below -len(self) is wrapped a second time by the list '
+                                      'instead of raising IndexError' % (src(redefs[0], 40), 'the lower bound' if not low else 'the upper bound'), f=f, node=r)
             else:
                 run.violation(RULE, f.key, 'integer index ' + src(r.value, 50), 'integer indexing is not a plain self.data[i]', f=f, node=r)
     if n_slice == 0:
